@@ -1,12 +1,30 @@
 """C02 -- bounds-checked readers/writers never touch memory outside their buffer (DESIGN.md section 4, C02)."""
-from vf.extract import Source
-from vf.pipeline import Group, Replay
 from props import rw_common as rw
-from props import C03 as c03
 
 ID = 'C02'
 LEVEL = 'proof'
-PROP_DEFINE = 'PROP_C02'
+EXPLANATION = rw.EXPLANATION
+TRUSTED = rw.TRUSTED
+ASSUMPTIONS = rw.ASSUMPTIONS
+DROPS = rw.DROPS
+NOT_DECIDED = [
+    'BitReader performs no bounds checks by design (not in the property\'s anchors): in-range is a precondition there; sub_bits/subx_bits, which create bit readers, are under contract',
+    'StringReader::all(), the shared_ptr-owning constructors and BlockStringWriter are not under contract',
+    'the growable writer "throws when it cannot grow": modelled as length_error from resize when the request exceeds the capacity of the string model',
+]
+CLAIMED = True
+MANIFEST = dict(
+    category='proof',
+    text=('For a reader over an is_fresh buffer of symbolic length (any length < 2^47, including 0) and ALL offsets/sizes in the full 64-bit range, every accessor is '
+          'proved to either throw out_of_range or return exactly the requested slice (throwing forms) / the in-range prefix (clamping forms): the C02 clauses say '
+          '"no exception iff off <= len and n <= len - off" (a wrap-free specification), the pointer/slice equals data+off, sub-readers lie inside the parent, the '
+          'cursor stays <= length after every read operation (also on the exception exit), BufferWriter stores inside [buf, buf+buf_size) or throws runtime_error and '
+          'stores nothing (ghost byte frame), StringWriter::pput grows to cover the write or throws length_error. cbmc\'s pointer/bounds checks are on for every '
+          'dereference inside the bodies and the preconditions of the memcpy/memcmp/std::string stubs (readable/writable ranges) are obligations at each call site.'),
+    note=('Trusted: cbmc/goto-instrument/solvers, the extractor, stubs/vstr.h, stubs/libc.h. Lengths < 2^47 (cbmc object limit). --unsigned-overflow-check stays off '
+          '(wrap-around is defined and is exactly what the specification is written to expose).'),
+    technique='function + loop contracts enforced with goto-instrument --dfcc, full 64-bit symbolic offsets/sizes over is_fresh buffers of symbolic length, cbmc pointer checks',
+)
 
 
 def plan(ctx):
